@@ -1,140 +1,154 @@
 /-
   Facts about the generated client methods and the hand-written request wrappers (extracted from the
   Go source by go/parser on every run), and the decidable predicates relating them to the registry
-  and the schema (C13).
+  and the schema (C13). Go-side names are `String` literals compared only for equality (cheap in the
+  kernel); schema-side text is `BStr`.
 -/
 import Mtv.Schema.Matches
 namespace Mtv.Schema
 open Mtv.TL
 
+/-- a Go type as written in the generated source, resolved to package-qualified names -/
+inductive GoTy where
+  | prim (n : String)          -- int32 int64 float64 string bool
+  | bytes                      -- []byte
+  | slice (e : GoTy)
+  | ptr (full : String)        -- *T, full = "telegram.T" / "tl.Int128"
+  | named (full : String)      -- an interface or enum type of package telegram
+  | obj                        -- tl.Object
+  | other (text : String)
+  deriving Repr, DecidableEq, Inhabited
+
 structure MethodFact where
   name : String                       -- Go method name
-  reqType : String                    -- request struct type, e.g. "AuthSendCodeParams"
+  reqFull : String                    -- request struct type, "telegram.AuthSendCodeParams"
+  reqId : Nat                         -- the literal its `CRC()` method returns
   passThrough : Bool                  -- single `params *T` argument handed to the request call
-  args : List (String × String)       -- (argument name, Go type text)
+  args : List (String × GoTy)         -- (argument name, type)
   assign : List (String × String)     -- composite literal: (field name, argument name)
   call : String                       -- MakeRequest | MakeRequestWithHintToDecoder
-  hint : String                       -- T in reflect.TypeOf(T{}) or ""
-  asserted : String                   -- type asserted on the response
-  retType : String                    -- declared first result type
+  hint : Option GoTy                  -- T in reflect.TypeOf(T{})
+  asserted : GoTy                     -- type asserted on the response
+  retType : GoTy                      -- declared first result type
   deriving Repr
 
 structure WrapperFact where
-  name : String
+  name : String                       -- Go type name, "telegram.InvokeWithLayerParams"
+  schemaName : BStr                   -- name with "Params" dropped and the first letter lower-cased
   id : Nat
   flagIndex : Option Nat
-  fields : List (String × String × String)   -- name, Go type text, tl tag
+  fields : List (String × GoTy × Option Flag)
   deriving Repr
 
-/-- Go source text of a field / result type, as the generator writes it in package telegram -/
-def goTypeText (R : Registry) : Ty → String
-  | .int32 => "int32"
-  | .uint32 => "uint32"
-  | .int64 => "int64"
-  | .f64 => "float64"
-  | .bool => "bool"
-  | .str => "string"
-  | .bytes => "[]byte"
-  | .i128 => "*tl.Int128"
-  | .i256 => "*tl.Int256"
-  | .enum nm => (nm.dropPrefix "telegram.").toString
-  | .vec e => "[]" ++ goTypeText R e
-  | .ptr id =>
-    match R.find id with
-    | some d => "*" ++ (d.name.dropPrefix "telegram.").toString
-    | none => "?"
-  | .iface nm => if nm == "tl.Object" then "tl.Object" else (nm.dropPrefix "telegram.").toString
-  | .bad w => w
+/-- is `g` the Go source type of a field of codec type `ty`? Pointers are resolved through the
+registry by constructor id (no scan by name). -/
+def goTyIs (R : Registry) : GoTy → Ty → Bool
+  | .prim n, ty =>
+    (n == "int32" && ty == .int32) || (n == "int64" && ty == .int64) || (n == "float64" && ty == .f64) ||
+    (n == "string" && ty == .str) || (n == "bool" && ty == .bool)
+  | .bytes, ty => ty == .bytes
+  | .slice e, .vec t => goTyIs R e t
+  | .ptr full, .i128 => full == "tl.Int128"
+  | .ptr full, .i256 => full == "tl.Int256"
+  | .ptr full, .ptr id =>
+    (match R.find id with
+     | some d => d.name == full
+     | none => false)
+  | .named full, .iface nm => full == nm
+  | .named full, .enum nm => full == nm
+  | .obj, .iface nm => nm == "tl.Object"
+  | _, _ => false
 
-/-- the Go type (as source text) in which a value of the schema result type `r` is returned:
-`Bool` ↦ bool, `Vector<t>` ↦ a slice (needs a decoder hint), a boxed type ↦ the pointer / enum /
-interface that `tyMatch` accepts for it -/
-def resultOk (R : Registry) (S : List Def) (r : String) (goText : String) : Bool :=
-  -- search the field types of the registry for a type with this source text that matches `r`
-  if r == "Bool" then goText == "bool" else
-  let cands : List Ty := (R.flatMap fun d => d.fields.map (·.ty))
-  -- direct candidates: pointer to the single constructor, or an interface / enum named like the text
-  let direct : List Ty :=
-    (ctorsOfType S r).map Ty.ptr ++ [Ty.iface ("telegram." ++ goText), Ty.enum ("telegram." ++ goText)]
-  (direct ++ cands).any fun t => goTypeText R t == goText && tyMatch R S (.ref r) t
+/-- the result type of a function as a schema type (tl2lean gives the raw text; the three shapes are
+`Bool`, `Vector<t>` and a boxed type) -/
+inductive ResultShape where
+  | bool
+  | vector (elem : STy)
+  | boxed (t : BStr)
 
-def parseVectorResult (r : String) : Option String :=
-  if r.startsWith "Vector<" && r.endsWith ">" then some ((r.drop 7).dropEnd 1).toString else none
+def shapeOf (d : Def) : ResultShape :=
+  match d.resultTy with
+  | .vec true e => .vector e
+  | .ref t => .boxed t
+  | .prim n => if n == bBool then .bool else .boxed n
+  | _ => .boxed d.result
 
-/-- element type of a `Vector<t>` result as a schema type -/
-def elemSTy (t : String) : STy :=
-  if t == "int" || t == "long" || t == "double" || t == "string" || t == "bytes" || t == "Bool" then .prim t else .ref t
+/-- the Go type in which a value of schema type `s` is returned / held: some codec type that
+`tyMatch` accepts for `s` and whose Go source type is `g` -/
+def holds (T : Tables) (R : Registry) (s : STy) (g : GoTy) : Bool :=
+  match s, g with
+  | .ref t, .ptr full =>
+    (match lookupB T.types t with
+     | [id] => goTyIs R (.ptr full) (.ptr id)
+     | _ => false)
+  | .ref t, .named full => tyMatch T (.ref t) (.iface full) || tyMatch T (.ref t) (.enum full)
+  | .prim n, g =>
+    (n == bInt && g == .prim "int32") || (n == bLong && g == .prim "int64") || (n == bDouble && g == .prim "float64") ||
+    (n == bString && g == .prim "string") || (n == bBytes && g == .bytes) || (n == bBool && g == .prim "bool")
+  | _, _ => false
 
-def vectorResultOk (R : Registry) (S : List Def) (elem : String) (goText : String) : Bool :=
-  match goText.toList with
-  | '[' :: ']' :: rest =>
-    let et := String.ofList rest
-    let cands : List Ty := [.int32, .int64, .f64, .str, .bytes, .bool] ++
-      (ctorsOfType S elem).map Ty.ptr ++ [Ty.iface ("telegram." ++ et), Ty.enum ("telegram." ++ et)]
-    cands.any fun t => goTypeText R t == et && tyMatch R S (elemSTy elem) t
-  | _ => false
+def resultMatches (T : Tables) (R : Registry) (shape : ResultShape) (m : MethodFact) : Bool :=
+  match shape with
+  | .bool => m.call == "MakeRequest" && m.hint.isNone && m.asserted == .prim "bool"
+  | .vector e =>
+    m.call == "MakeRequestWithHintToDecoder" && m.hint == some m.asserted &&
+    (match m.asserted with
+     | .slice g => holds T R e g
+     | _ => false)
+  | .boxed t => m.call == "MakeRequest" && m.hint.isNone && holds T R (.ref t) m.asserted
 
 /-- one generated method against registry and schema: it sends a request of its function's
 constructor, its arguments go to the fields in the schema's parameter positions (argument i ↦ field i,
 same Go type), and the answer is returned as the result kind the schema declares. -/
-def methodOk (R : Registry) (S : List Def) (m : MethodFact) : Bool :=
-  match R.find? (fun d => d.name == "telegram." ++ m.reqType) with
+def methodOk (T : Tables) (R : Registry) (S : List Def) (m : MethodFact) : Bool :=
+  match R.find m.reqId with
   | none => false
   | some c =>
-    match S.find? (fun d => d.id == c.id) with
+    c.name == m.reqFull &&
+    match S.find? (fun d => d.id == m.reqId) with
     | none => false
     | some d =>
-      d.isFunc &&
+      d.isFunc && c.kind == .struct &&
       (if m.passThrough then
-        m.args.length == 1 && m.args.all (fun a => a.2 == "*" ++ m.reqType) && m.assign.isEmpty
+        m.assign.isEmpty &&
+        (match m.args with
+         | [(_, .ptr full)] => full == m.reqFull
+         | _ => false)
        else
-        m.args.length == c.fields.length &&
-        (List.zip m.args c.fields).all (fun (a, f) =>
-          a.2 == goTypeText R f.ty && m.assign.contains (f.name, a.1)) &&
-        m.assign.length == c.fields.length) &&
+        m.args.length == c.fields.length && m.assign.length == c.fields.length &&
+        (List.zip m.args c.fields).all (fun (a, f) => goTyIs R a.2 f.ty && m.assign.contains (f.name, a.1))) &&
       m.asserted == m.retType &&
-      (match parseVectorResult d.result with
-       | some elem => m.call == "MakeRequestWithHintToDecoder" && m.hint == m.asserted &&
-                      vectorResultOk R S elem m.asserted
-       | none => m.call == "MakeRequest" && m.hint == "" && resultOk R S d.result m.asserted)
+      resultMatches T R (shapeOf d) m
 
-/-- Go type text of a wrapper field ↦ the codec type, through the registry's names -/
-def tyOfGoText (R : Registry) (t : String) : Option Ty :=
-  if t == "int32" then some .int32 else if t == "int64" then some .int64 else if t == "string" then some .str
-  else if t == "bool" then some .bool else if t == "[]byte" then some .bytes else if t == "float64" then some .f64
-  else if t == "tl.Object" then some (.iface "tl.Object")
-  else if t == "[]int64" then some (.vec .int64) else if t == "[]int32" then some (.vec .int32)
-  else if t.startsWith "*" then
-    (R.find? (fun d => d.name == "telegram." ++ (t.drop 1).toString)).map (fun d => Ty.ptr d.id)
-  else some (.iface ("telegram." ++ t))
-
-def parseTag (tag : String) : Option Flag :=
-  if tag == "" then none else
-  match tag.splitOn "," with
-  | f :: opts =>
-    if f.startsWith "flag:" then
-      ((f.drop 5).toString.toNat?).map fun n => ⟨n, opts.contains "encoded_in_bitflags"⟩
-    else none
-  | [] => none
+/-- the codec type of a wrapper field as written in the Go source -/
+def tyOfGoTy (T : Tables) : GoTy → Option Ty
+  | .prim n =>
+    if n == "int32" then some .int32 else if n == "int64" then some .int64 else if n == "float64" then some .f64
+    else if n == "string" then some .str else if n == "bool" then some .bool else none
+  | .bytes => some .bytes
+  | .slice e => (tyOfGoTy T e).map Ty.vec
+  | .named full => some (.iface full)
+  | .obj => some (.iface "tl.Object")
+  | _ => none
 
 /-- a hand-written wrapper (`InvokeWithLayerParams` ↔ `invokeWithLayer`) against its schema line:
 same id, same layout -/
-def wrapperOk (R : Registry) (S : List Def) (w : WrapperFact) : Bool :=
-  let fname := decapName ((w.name.dropSuffix "Params").toString)
-  match S.find? (fun d => d.name == fname) with
+def wrapperOk (T : Tables) (R : Registry) (S : List Def) (w : WrapperFact) : Bool :=
+  match S.find? (fun d => d.name == w.schemaName) with
   | none => false
   | some d =>
     d.isFunc && d.id == w.id && w.flagIndex == expectedFlagIndex d.params 0 &&
     (let ps := fieldParams d
      ps.length == w.fields.length &&
-     (List.zip ps w.fields).all fun (p, (_, t, tag)) =>
-       match tyOfGoText R t with
-       | some ty => fieldMatch R S p ⟨"", ty, parseTag tag⟩
-       | none => false)
-where
-  decapName (s : String) : String :=
-    match s.toList with
-    | [] => s
-    | c :: cs => String.ofList (c.toLower :: cs)
+     (List.zip ps w.fields).all fun (p, (_, g, fl)) =>
+       (match g with
+        | .ptr _ => holds T R p.ty g
+        | _ => match tyOfGoTy T g with
+          | some ty => tyMatch T p.ty ty
+          | none => false) &&
+       (match p.cond, fl with
+        | none, none => true
+        | some n, some f => n == f.bit && f.inBits == (p.ty == .prim bTrue)
+        | _, _ => false))
 
 end Mtv.Schema
